@@ -4,13 +4,24 @@ PROPERTIES = {
     "C17": dict(
         modules=["visibility"],
         level="proof",
-        claim="point/vector branch of canSee: visible iff inside the view volume and no in-range occluder hit lies on the segment to the target (exact characterisation, hence monotone in occluders); viewer wrappers pass camera position = position + R*cameraOffset, orientation, distance, angles and occluders through; veneer.CanSee passes exactly the occluding objects other than viewer and target",
-        note="proof (partial): relative to the rotation-group axioms (L-rot.*) and trigonometric identities (A2.*); floats as reals; target at the camera position excluded (direction undefined, nan in the code)",
+        claim=(
+            "point/vector branch of visibility.canSee: with nothing occluding, visible <=> inside the view volume (distance, azimuth and altitude "
+            "of R^-1 (t - p)); with occluders the verdict is the unoccluded verdict minus 'some in-range occluder is hit at or before the target' "
+            "(hence monotone in occluders); the ray tested against occluders is the camera -> target ray; Point/OrientedPoint/Object.canSee pass "
+            "camera position (= position + R * cameraOffset), orientation, distance, angles, ray parameters and occluders through unchanged; "
+            "veneer.CanSee hands over exactly the occluding scene objects other than viewer and target"
+        ),
+        note="proof (partial): relative to L-rot.* / A2.* / A1.* axioms; floats as reals; a target exactly at the camera position is excluded (direction undefined: nan in the code)",
         assumptions=[
-            "L-rot: scipy Rotation is a group acting on R^3 (models_geom)",
-            "A2: trigonometric identities named A2.* (models_geom)",
-            "trimesh ray.intersects_location modelled as an arbitrary finite set of hit locations per occluder (0..2 hits, symbolic positions)",
+            "L-rot: scipy Rotation acts linearly (R R^-1 v = v, R 0 = 0, R (v / c) = (R v) / c)",
+            "A2: atan2 range / positive homogeneity, asin(z/|v|) = atan2(z, hypot(x, y))",
+            "trimesh ray.intersects_location modelled as an arbitrary finite list of hit locations per occluder (0..2 hits, symbolic positions); numpy arrays of concrete shape",
+            "Vector.__truediv__ used through its C07 contract at call sites inside canSee",
         ],
-        not_reached=["visibility.canSee object branch (ray casting with numpy/trimesh): 'an object is seen whenever a substantial part of it is in view' is not proved", "Object.visibleRegion / ViewRegion geometry (C16/C04)", "VisibilityRequirement occluder sets (C02, F21)"],
+        not_reached=[
+            "visibility.canSee object branch (ray casting with numpy/trimesh): 'an object is seen whenever a substantial part of it is in view' is not proved",
+            "Object.visibleRegion / ViewRegion geometry (C16/C04)",
+            "VisibilityRequirement occluder sets (C02, F21)",
+        ],
     )
 }
